@@ -286,6 +286,11 @@ func DoPostArticle(
 		return nil, err
 	}
 
+	// login-days / bad-post limits of the board (CheckPostRestriction in do_general)
+	if !CheckPostRestriction(user, uid, board, bid) {
+		return nil, ErrNotPermitted
+	}
+
 	isCooldown, err := checkCooldown(user, uid, board, bid)
 	if err != nil {
 		return nil, err
